@@ -136,16 +136,18 @@ def takeIf (p : Str → Bool) : List Str → Str × List Str
   | t :: ts => if p t then (t, ts) else ([], t :: ts)
   | [] => ([], [])
 
+/-- `[length] bp` at the head of the tokens that follow the name -/
+def splitLength (rest : List Str) : Option (Str × List Str) :=
+  match rest with
+  | n :: u :: r =>
+    if n.all isDigit ∧ n ≠ [] ∧ u = "bp".toList then some (n, r)
+    else if n = "bp".toList then some ([], u :: r) else none
+  | [n] => if n = "bp".toList then some ([], []) else none
+  | [] => none
+
 /-- the tokens after the name: [length] `bp`, molecule type words, [topology] [division] [date] -/
 def classifyLocus (name : Str) (rest : List Str) : Option SLocus :=
-  let lenRest : Option (Str × List Str) :=
-    match rest with
-    | n :: u :: r =>
-      if n.all isDigit ∧ n ≠ [] ∧ u = "bp".toList then some (n, r)
-      else if n = "bp".toList then some ([], u :: r) else none
-    | [n] => if n = "bp".toList then some ([], []) else none
-    | [] => none
-  match lenRest with
+  match splitLength rest with
   | none => none
   | some (len, r) =>
     let (date, r1) := takeIf isDate r.reverse
